@@ -23,7 +23,7 @@ tail -3 /tmp/seed-$NAME-without.log | cut -c1-200
 echo "rc=$RC_WITHOUT"
 git apply SEEDED/patch.diff
 echo "== suite WITH change"
-go build ./... && go test -vet=off -count=1 -timeout 25m -skip 'Seeded|seeded' . ./internal/leakcheck ./tests/... 2>&1 | grep -v "no test files" > /tmp/seed-$NAME-suite.log; 
+go build ./... && go test -vet=off -count=1 -timeout 25m -skip "${SKIP:-Seeded|seeded}" . ./internal/leakcheck ./tests/... 2>&1 | grep -v "no test files" > /tmp/seed-$NAME-suite.log; 
 grep -c '^ok' /tmp/seed-$NAME-suite.log; grep -v '^ok' /tmp/seed-$NAME-suite.log | head -5
 mkdir -p /verif/seeded/$NAME
 cp SEEDED/patch.diff /verif/seeded/$NAME/
